@@ -18,6 +18,7 @@ type Obligation struct {
 	Clause   string `json:"clause"`   // stable identity: func :: clause id
 	Kind     string `json:"kind"`     // index, slice, div, panic, requires, ensures, invariant-entry, invariant-preserved, frame, assert ...
 	Pos      string `json:"pos"`      // file:line
+	Src      string `json:"src"`      // trimmed source text of that line (part of the obligation's identity)
 	Desc     string `json:"desc"`     // human text
 	Func     string `json:"func"`     // function under contract
 	prefix   int    // number of script lines that belong to the query
@@ -216,7 +217,7 @@ func (g *Gen) oblige(st *State, kind, clauseID, desc, goal string) {
 	if clauseID == "" {
 		clauseID = "safety:" + kind
 	}
-	o := &Obligation{Name: name, Clause: fnName + " :: " + clauseID, Kind: kind, Pos: pos, Desc: desc, Func: fnName,
+	o := &Obligation{Name: name, Clause: fnName + " :: " + clauseID, Kind: kind, Pos: pos, Src: g.W.sourceLine(g.curPos), Desc: desc, Func: fnName,
 		prefix: len(g.lines), pc: st.pc, goal: goal}
 	if goal == "true" || st.pc == "false" {
 		o.Trivial = true
